@@ -6,8 +6,10 @@ import gen_prog, lower_common, par
 OL = None
 FROLES = ['none', 'read', 'assign', 'param', 'gassign', 'gread', 'nlassign', 'nlread', 'nlaug', 'gaug', 'fortarget', 'walrus', 'lamparam', 'comptarget',
           'lamread', 'compread', 'assign_late', 'import', 'defname', 'augassign', 'classname', 'subscript_index', 'lamdefault', 'genread',
-          'nested_comp', 'lam_in_comp', 'comp_in_lam', 'kwdefault', 'posdefault', 'lamdefault_same', 'swap', 'lamkwparam', 'lamstarparam', 'defkwparam']
-CROLES = ['none', 'read', 'assign', 'gassign', 'nlassign', 'read_then_assign', 'compread', 'lamread', 'fortarget', 'walrus', 'genread']
+          'nested_comp', 'lam_in_comp', 'comp_in_lam', 'kwdefault', 'posdefault', 'lamdefault_same', 'swap', 'lamkwparam', 'lamstarparam', 'defkwparam',
+          'decoclassname', 'lamstarkwparam', 'lam_in_lam']
+CROLES = ['none', 'read', 'assign', 'gassign', 'nlassign', 'read_then_assign', 'compread', 'lamread', 'fortarget', 'walrus', 'genread',
+          'decoclass', 'lamlamread', 'lamcompread', 'complamread', 'lamstarkw']
 
 
 def body(kind, role, tag, ind):
@@ -37,6 +39,9 @@ def body(kind, role, tag, ind):
         elif role == 'defname': L += [f"{p}def x(): return '{tag}'"]; log('x()')
         elif role == 'augassign': L += [f"{p}x = '{tag}'", f"{p}x += '+'"]; log('x')
         elif role == 'classname': L += [f"{p}class x: v = '{tag}'"]; log('x.v')
+        elif role == 'decoclassname': L += [f"{p}@(lambda c: type(c.__name__, (c,), {{'d': '{tag}d'}}))", f"{p}class x: v = '{tag}'"]; log("(x.v, getattr(x, 'd', None))")
+        elif role == 'lamstarkwparam': L += [f"{p}log('{tag}l', (lambda *a, **x: sorted(x.items()))(1, k='{tag}'), (lambda *x, **k: (x, sorted(k)))('{tag}s', x=1))"]
+        elif role == 'lam_in_lam': L += [f"{p}log('{tag}n', (lambda: (lambda: x)())(), (lambda: [(lambda: x)() for _ in [0]])())"]
         elif role == 'subscript_index': L += [f"{p}d_{tag} = {{}}", f"{p}d_{tag}[x] = '{tag}'", f"{p}d_{tag}[x] += '+'"]; log(f"sorted(d_{tag}.items())")
         elif role == 'lamkwparam': L += [f"{p}log('{tag}l', (lambda *, x: x)(x='{tag}k'), (lambda a, *, x='{tag}d': (a, x))(1))"]
         elif role == 'lamstarparam': L += [f"{p}log('{tag}l', (lambda *x: x)('{tag}s'), (lambda **x: sorted(x.items()))(k='{tag}'))"]
@@ -59,6 +64,11 @@ def body(kind, role, tag, ind):
         elif role == 'compread': L += [f"{p}a_{tag} = [x for _ in [0]]"]
         elif role == 'genread': L += [f"{p}a_{tag} = list(x for _ in [0])"]
         elif role == 'lamread': L += [f"{p}a_{tag} = (lambda: x)()"]
+        elif role == 'lamlamread': L += [f"{p}a_{tag} = (lambda: (lambda: x)())()"]
+        elif role == 'lamcompread': L += [f"{p}a_{tag} = (lambda: [x for _ in [0]])()"]
+        elif role == 'complamread': L += [f"{p}a_{tag} = [(lambda: x)() for _ in [0]]"]
+        elif role == 'lamstarkw': L += [f"{p}a_{tag} = (lambda *a, **x: sorted(x.items()))(1, k='{tag}')", f"{p}b_{tag} = (lambda *x, **k: (x, sorted(k)))('{tag}s', x=1)"]
+        elif role == 'decoclass': L += [f"{p}@(lambda c: type(c.__name__, (c,), {{'d': '{tag}d'}}))", f"{p}class x: v = '{tag}'", f"{p}a_{tag} = (x.v, getattr(x, 'd', None))"]
         elif role == 'fortarget': L += [f"{p}for x in ['{tag}a', '{tag}b']:", f"{p}    a_{tag} = x", f"{p}b_{tag} = x"]
         elif role == 'walrus': L += [f"{p}a_{tag} = (x := '{tag}')", f"{p}b_{tag} = x"]
     return L
@@ -67,11 +77,12 @@ def body(kind, role, tag, ind):
 def post(kind, role, tag, ind):
     p = '    ' * ind
     if kind == 'f':
-        if role in ('none', 'lamparam', 'comptarget', 'lamread', 'compread', 'genread', 'lamdefault', 'nested_comp', 'lam_in_comp', 'comp_in_lam', 'lamdefault_same', 'lamkwparam', 'lamstarparam', 'defkwparam'): return []
+        if role in ('none', 'lamparam', 'comptarget', 'lamread', 'compread', 'genread', 'lamdefault', 'nested_comp', 'lam_in_comp', 'comp_in_lam', 'lamdefault_same', 'lamkwparam', 'lamstarparam', 'defkwparam', 'lamstarkwparam', 'lam_in_lam'): return []
         if role == 'assign_late': return [f"{p}x = '{tag}'", f"{p}log('{tag}post', x)"]
         if role == 'import': return [f"{p}log('{tag}post', x.__name__)"]
         if role == 'defname': return [f"{p}log('{tag}post', x())"]
         if role == 'classname': return [f"{p}log('{tag}post', x.v)"]
+        if role == 'decoclassname': return [f"{p}log('{tag}post', (x.v, getattr(x, 'd', None)))"]
         if role == 'subscript_index': return [f"{p}log('{tag}post', sorted(d_{tag}.items()))"]
         return [f"{p}log('{tag}post', x)"]
     return []
@@ -126,9 +137,9 @@ def run(code, mode):
     return out, None
 
 
-READS = {'read', 'nlread', 'lamread', 'compread', 'genread', 'nlassign', 'nlaug', 'subscript_index', 'lamdefault', 'kwdefault', 'posdefault', 'lamdefault_same'}
-LOCALBIND = {'assign', 'param', 'walrus', 'import', 'defname', 'assign_late', 'fortarget', 'augassign', 'classname'}
-CREADS = ('read', 'nlassign', 'compread', 'genread', 'lamread', 'read_then_assign')
+READS = {'read', 'nlread', 'lamread', 'compread', 'genread', 'nlassign', 'nlaug', 'subscript_index', 'lamdefault', 'kwdefault', 'posdefault', 'lamdefault_same', 'lam_in_lam'}
+LOCALBIND = {'assign', 'param', 'walrus', 'import', 'defname', 'assign_late', 'fortarget', 'augassign', 'classname', 'decoclassname'}
+CREADS = ('read', 'nlassign', 'compread', 'genread', 'lamread', 'read_then_assign', 'lamlamread', 'lamcompread', 'complamread')
 
 
 def binder_idx(chain, i):
